@@ -148,7 +148,8 @@ class Dest:
 
 def new_game(rng):
     regions, _ = carts.random_regions(rng, 'uniform')
-    return carts.make_game(regions, code=carts.simple_lua(rng, 300), version=8, label=carts.random_bytes(rng, 8192))
+    version = rng.choice((8, 8, 33, 34, 36, 41, 16, 255))
+    return carts.make_game(regions, code=carts.simple_lua(rng, 300), version=version, label=carts.random_bytes(rng, 8192))
 
 
 def fmt_class(fmt):
@@ -227,6 +228,14 @@ def run_writer_section(ctx, rng, spec, root):
             attempt(ctx, dest, lambda: p8file.to_file(g, dest.path, lua_writer_cls=W),
                     {'injector': 'lua_writer', 'base': base.__name__, 'k': k, 'fmt': spec['fmt'], 'exists': spec['exists']},
                     'lua_writer')
+        # the type of the exception a writer raises does not matter
+        for exc in (IndexError, KeyError, AttributeError, ValueError, TypeError, OSError, RuntimeError, AssertionError, LookupError,
+                    ArithmeticError, NotImplementedError):
+            W = faults.failing_writer_cls(base, 1, exc=exc)
+            attempt(ctx, dest, lambda: p8file.to_file(g, dest.path, lua_writer_cls=W),
+                    {'injector': 'lua_writer', 'base': base.__name__, 'k': 1, 'exc': exc.__name__, 'fmt': spec['fmt'], 'exists': spec['exists']},
+                    'lua_writer', fired=lambda: True)
+            ctx.feature('writer_exception_types')
         if spec['fmt'] == 'p8':
             W = faults.failing_writer_cls(base, 1, garbage=True)
             attempt(ctx, dest, lambda: p8file.to_file(g, dest.path, lua_writer_cls=W),
@@ -344,6 +353,11 @@ def run_cli(ctx, rng, spec, root):
         dest = Dest(ctx, rng, fmt, True, root)
         cls = fmt_class(fmt)
         call = cli_call(spec['entry'], dest, root)
+        if spec['entry'] == 'luafmt':
+            # an earlier run without --overwrite left <cart>_fmt.p8 next to the cart: it is a bystander of the runs that follow
+            from pico8 import tool as _tool
+            _tool.main(QUIET + ['luafmt', dest.path])
+            ctx.feature('stale_fmt_file_next_to_cart')
         with faults.StreamFaultPatch(cls, -1) as pt:
             call()
             total = pt.stream.writes
@@ -355,6 +369,10 @@ def run_cli(ctx, rng, spec, root):
                 shutil.rmtree(dest.dir, ignore_errors=True)
                 dest = Dest(ctx, rng, fmt, True, root)
                 call = cli_call(spec['entry'], dest, root)
+                if spec['entry'] == 'luafmt' and k % 8 == 1:
+                    from pico8 import tool as _tool
+                    _tool.main(QUIET + ['luafmt', dest.path])
+                    dest.snap = dest.snapshot()
                 ctx.feature('cli_first_invocation_fails')
             with faults.StreamFaultPatch(cls, k) as pt:
                 attempt(ctx, dest, call, {'injector': 'stream', 'entry': spec['entry'], 'k': k, 'fmt': fmt, 'exists': True},
@@ -563,7 +581,9 @@ def replay(case, ctx):
             with faults.StreamFaultPatch(fmt_class(fmt), case['k']):
                 attempt(ctx, dest, call, case, 'stream')
         elif inj in ('lua_writer', 'unparseable_output'):
-            W = faults.failing_writer_cls(getattr(lua, case['base']), case.get('k', 1), garbage=inj == 'unparseable_output')
+            import builtins
+            W = faults.failing_writer_cls(getattr(lua, case['base']), case.get('k', 1), garbage=inj == 'unparseable_output',
+                                          exc=getattr(builtins, case['exc']) if case.get('exc') else None)
             attempt(ctx, dest, lambda: p8file.to_file(g, dest.path, lua_writer_cls=W), case, inj)
         elif inj == 'section':
             orig = getattr(g, case['section'])
@@ -606,6 +626,8 @@ def gates(m, tier):
     for e in ('luamin_fmt', 'luafmt_fmt', 'writep8_fmt'):
         if f.get('cli_%s_stream_index' % e, 0) < 8:
             missed.append('CLI %s under-driven' % e)
+    if f.get('writer_exception_types', 0) < 40 or f.get('stale_fmt_file_next_to_cart', 0) < 1:
+        missed.append('writer exception types %d, stale _fmt bystander %d' % (f.get('writer_exception_types', 0), f.get('stale_fmt_file_next_to_cart', 0)))
     if f.get('cli_first_invocation_fails', 0) < 10:
         missed.append('first-ever invocation on a cart fails: %d' % f.get('cli_first_invocation_fails', 0))
     if f.get('cli_luafmt_stream_index', 0) < 5 or f.get('cli_build_stream_index', 0) < 5:
